@@ -703,7 +703,7 @@ fn plant16(len: usize, filler: &[u16], pos: usize, planted: &[u16]) -> Vec<u16> 
 
 pub fn run(tier: Tier, prop: &'static str) -> (Stats, VioSet) {
     let q = tier == Tier::Quick;
-    let maxlen: usize = if q { 40 } else { 96 };
+    let maxlen: usize = if q { 72 } else { 160 };
     let aligns: Vec<usize> = if q { vec![0, 1] } else { vec![0, 1, 7, 15] };
     let lens: Vec<usize> = (0..=maxlen).collect();
     let outs = par_map(&lens, 16, |&len| {
